@@ -284,16 +284,17 @@ Definition date_facet : list drange -> Z -> list doc -> option facet_result :=
    for every match delivered by the searcher: prepareDocumentMatch updates the facet builders
    from the match's doc values, THEN the match is offered to the bounded store (dmHandler), which
    is where Size / From / Sort / SearchAfter act.  [H] is whatever the store keeps of a match,
-   [S] the store's state and [offer] its step; the facet state [F] is threaded beside it. *)
+   [S] the store's state and [offer] its step; the facet state [F] is threaded beside it; [D] is a
+   match's visited doc values. *)
 Section Collector.
-  Context {H S F : Type}.
+  Context {H S F D : Type}.
   Variable offer : S -> H -> S.
-  Variable facet_doc : F -> doc -> F.
+  Variable facet_doc : F -> D -> F.
 
-  Definition collect_step (st : S * F) (m : H * doc) : S * F :=
+  Definition collect_step (st : S * F) (m : H * D) : S * F :=
     (offer (fst st) (fst m), facet_doc (snd st) (snd m)).
 
-  Definition collect (s0 : S) (f0 : F) (ms : list (H * doc)) : S * F :=
+  Definition collect (s0 : S) (f0 : F) (ms : list (H * D)) : S * F :=
     fold_left collect_step ms (s0, f0).
 End Collector.
 
